@@ -30,6 +30,20 @@ type c07Case struct {
 	V2     bool
 	Cmds   []GenCmd
 	Ts     []int64
+	// Live: "live-clock" log. Log timestamps are the real clock at generation
+	// time: setup + TTLs of 2 s in log second S, commands on those keys still in
+	// second S (2 s before the expiry by log time), then commands in log second
+	// S+3 (after the expiry by log time). The delayed replicas run after a real
+	// sleep longer than the TTL, so every wall-clock based expiry decision in an
+	// apply path differs between a replica and its delayed twin, while every
+	// log-timestamp based decision is identical. Dumps of such logs are compared
+	// at engine level only (reads filter by the wall clock).
+	Live         bool
+	LiveB, LiveC int // first index of phase B (same second) and C (second S+3)
+	// LiveExclKnown: the commands with a known wall-clock dependence in the apply
+	// path (knownWallclockCmds) are not generated in this log
+	LiveExclKnown bool
+	liveOff       []int64 // per command: offset (ns) from T0 (phase A/B) or from the start of second S+3 (phase C)
 
 	hllOnce   sync.Once
 	hllKeys   map[string]int // "table:key" -> index of the first PFADD on it
@@ -136,6 +150,8 @@ type repResult struct {
 	Err      string // harness-level failure (open/backup/restore): inconclusive
 	Batches  int
 	Restarts int
+	// real clock (UnixNano) right before the first and right after the last apply
+	ApplyStart, ApplyEnd int64
 }
 
 var c07DirSeq int64
@@ -199,6 +215,12 @@ func runReplica(scratch string, cs *c07Case, sp repSpec) (res repResult) {
 		}
 		return true
 	}
+	res.ApplyStart = time.Now().UnixNano()
+	defer func() {
+		if res.ApplyEnd == 0 {
+			res.ApplyEnd = time.Now().UnixNano()
+		}
+	}()
 	switch sp.Mode {
 	case "live":
 		if !run(0, n, false, true) {
@@ -261,6 +283,7 @@ func runReplica(scratch string, cs *c07Case, sp repSpec) (res repResult) {
 		res.Err = "bad mode " + sp.Mode
 		return
 	}
+	res.ApplyEnd = time.Now().UnixNano()
 	keys, _ := cs.hll()
 	var pf []string
 	res.Raw = l.RawDump()
@@ -584,7 +607,14 @@ func compareTo(cs *c07Case, an string, a *repResult, bn string, b *repResult, ra
 		return nil
 	}
 	var bytesOnly *divergence
-	if d := a.Logical.Diff(b.Logical); d != "" {
+	if cs.Live || os.Getenv("VERIF_DEV_XRAW") != "" {
+		// live-clock logs: reads (and with them the logical dump) filter by the wall
+		// clock, which passes an expiry instant during the run. The engine content
+		// is produced above the engine and is byte-identical on mem and pebble, so
+		// it is compared directly, also across engine types.
+		rawToo = cs.Policy != "local_deletion"
+	}
+	if d := a.Logical.Diff(b.Logical); d != "" && !cs.Live {
 		ma, mb := maskLogical(a.Logical, hllKeys), maskLogical(b.Logical, hllKeys)
 		if md := ma.Diff(mb); md != "" {
 			dv := &divergence{Kind: "logical", A: an, B: bn, Index: -1, Detail: md}
@@ -627,7 +657,145 @@ func maxInt(a, b int) int {
 // ---------------------------------------------------------------------------
 // case generation
 
+// knownWallclockCmds: commands whose apply path is known to judge expiry by the
+// wall clock on the unchanged tree (finding wallclock-expiry-in-apply/<cmd>).
+// Half of the live-clock logs do not contain them, so that the first divergence
+// of a log is not always the known one.
+var knownWallclockCmds = map[string]bool{"hclear": true}
+
+// liveExpiry returns the first expiry instant (real clock = log clock, ns) of a
+// live-clock log: the start of second S+2.
+func (cs *c07Case) liveExpiry() int64 {
+	const sec = int64(1000000000)
+	return cs.Ts[0] - cs.Ts[0]%sec + 2*sec
+}
+
+// liveTTL is the only TTL used in live-clock logs; liveSleep is the real sleep
+// before the delayed replicas (> TTL, so that the expiry instant on the real
+// clock lies between a replica and its delayed twin).
+const (
+	liveTTL   = "2"
+	liveSleep = 2600 * time.Millisecond
+)
+
+// genLiveCase builds a live-clock log (see c07Case.Live). By LOG time every
+// outcome is well defined with a margin: all expire times are S+2 (set in phase
+// A/B) or S+5 (set in phase C); phase A/B commands carry timestamps in second S
+// (2 s before S+2), phase C commands in second S+3 (1 s after S+2, 2 s before
+// S+5). No command is ever in the same second as, or the second before, an expiry.
+func genLiveCase(r *rand.Rand, id int, n int) *c07Case {
+	cs := &c07Case{ID: id, Policy: "wait_compact", Live: true}
+	cs.V2 = r.Intn(4) == 0
+	g := NewGen(r)
+	g.HLLMode = 0
+	if r.Intn(10) < 3 {
+		g.FailBatchable = 0.1
+	}
+	if r.Intn(2) == 0 {
+		cs.LiveExclKnown = true
+		g.Exclude = knownWallclockCmds
+	}
+	g.DurPool = []string{liveTTL, liveTTL, liveTTL, liveTTL, "315360000", "abc", "0", "-1"}
+	g.DurOKPool = []string{liveTTL, liveTTL, liveTTL, "315360000"}
+	// offsets are generated first; retime() ties them to the real clock right
+	// before the log is executed
+	ts := int64(0)
+	next := func() int64 {
+		// adversarially close
+		switch r.Intn(4) {
+		case 0:
+		case 1:
+			ts++
+		case 2:
+			ts += int64(r.Intn(1000))
+		default:
+			ts += int64(r.Intn(2000000))
+		}
+		if ts > 900000000 {
+			ts = 900000000
+		}
+		return ts
+	}
+	add := func(c GenCmd) {
+		cs.Cmds = append(cs.Cmds, c)
+		cs.liveOff = append(cs.liveOff, next())
+	}
+	// phase A: give every key of the pool some typed content with a TTL
+	pairs := 0
+	for _, t := range g.Tables {
+		for _, k := range g.Keys {
+			if pairs >= 3 {
+				break
+			}
+			pairs++
+			a1 := NsKey(DefaultNamespaceBase, []byte(t), []byte(k))
+			for _, typ := range r.Perm(7)[:2+r.Intn(3)] {
+				switch typ {
+				case 0:
+					add(GenCmd{mk("setex", a1, liveTTL, g.pick(poolValues)), "ttl", ""})
+				case 1:
+					add(GenCmd{mk("sadd", a1, g.members(2, 4)...), "set", ""})
+					add(GenCmd{mk("sexpire", a1, liveTTL), "ttl", ""})
+				case 2:
+					add(GenCmd{mk("hmset", a1, "a", "1", g.pick(poolMembers), g.pick(poolValues)), "hash", ""})
+					add(GenCmd{mk("hexpire", a1, liveTTL), "ttl", ""})
+				case 3:
+					add(GenCmd{mk("rpush", a1, g.members(2, 4)...), "list", ""})
+					add(GenCmd{mk("lexpire", a1, liveTTL), "ttl", ""})
+				case 4:
+					add(GenCmd{mk("zadd", a1, "1", "a", "2", g.pick(poolMembers), "3", "m2"), "zset", ""})
+					add(GenCmd{mk("zexpire", a1, liveTTL), "ttl", ""})
+				case 5:
+					add(GenCmd{mk("setbitv2", a1, g.pick(poolBitOff), "1"), "bitmap", ""})
+					add(GenCmd{mk("bexpire", a1, liveTTL), "ttl", ""})
+				default:
+					add(GenCmd{mk("set", a1, g.pick(poolValues)), "kv", ""})
+					add(GenCmd{mk("expire", a1, liveTTL), "ttl", ""})
+				}
+			}
+		}
+	}
+	// phase B: still in log second S, i.e. before the expiry by log time
+	cs.LiveB = len(cs.Cmds)
+	nb := n/2 + r.Intn(10)
+	for i := 0; i < nb; i++ {
+		add(g.Next())
+	}
+	// phase C: log second S+3, i.e. after the expiry by log time
+	cs.LiveC = len(cs.Cmds)
+	ts = int64(r.Intn(1000))
+	nc := n/3 + r.Intn(10)
+	for i := 0; i < nc; i++ {
+		add(g.Next())
+	}
+	cs.retime(time.Now().UnixNano())
+	return cs
+}
+
+// retime ties a live-clock log to the real clock: T0 = now; phase A/B
+// timestamps are T0+offset clamped into log second S = sec(T0), phase C
+// timestamps lie in second S+3.
+func (cs *c07Case) retime(now int64) {
+	const sec = int64(1000000000)
+	s0 := now - now%sec
+	cs.Ts = make([]int64, len(cs.Cmds))
+	for i := range cs.Cmds {
+		if i < cs.LiveC {
+			t := now + cs.liveOff[i]
+			if t > s0+sec-1 {
+				t = s0 + sec - 1
+			}
+			cs.Ts[i] = t
+		} else {
+			cs.Ts[i] = s0 + 3*sec + cs.liveOff[i]
+		}
+	}
+}
+
 func genCase(r *rand.Rand, id int, n int) *c07Case {
+	if r.Intn(4) == 0 {
+		return genLiveCase(r, id, n)
+	}
 	cs := &c07Case{ID: id, Policy: "wait_compact"}
 	if r.Intn(4) == 0 {
 		cs.Policy = "local_deletion"
@@ -660,6 +828,7 @@ func genCase(r *rand.Rand, id int, n int) *c07Case {
 // witness
 
 type c07Witness struct {
+	Live    bool        `json:"live_clock,omitempty"` // timestamps are re-based to the real clock on replay
 	Policy  string      `json:"policy"`
 	V2      bool        `json:"use_redis_v2"`
 	Cmds    [][]string  `json:"cmds"` // Go-quoted args; REPEAT:n:"c" = n times c
@@ -672,7 +841,7 @@ type c07Witness struct {
 }
 
 func (cs *c07Case) witness(specs []repSpec, d *divergence, results map[string]*repResult) *c07Witness {
-	w := &c07Witness{Policy: cs.Policy, V2: cs.V2, Ts: cs.Ts, Specs: specs, Div: *d}
+	w := &c07Witness{Live: cs.Live, Policy: cs.Policy, V2: cs.V2, Ts: cs.Ts, Specs: specs, Div: *d}
 	for _, c := range cs.Cmds {
 		w.Cmds = append(w.Cmds, QuoteArgs(c.Cmd))
 	}
@@ -685,7 +854,16 @@ func (cs *c07Case) witness(specs []repSpec, d *divergence, results map[string]*r
 }
 
 func caseFromWitness(w *c07Witness) (*c07Case, error) {
-	cs := &c07Case{ID: 0, Policy: w.Policy, V2: w.V2, Ts: w.Ts}
+	cs := &c07Case{ID: 0, Policy: w.Policy, V2: w.V2, Ts: append([]int64{}, w.Ts...), Live: w.Live}
+	if cs.Live && len(cs.Ts) > 0 {
+		// re-base to the real clock by whole seconds (keeps every second boundary)
+		const sec = int64(1000000000)
+		now := time.Now().UnixNano()
+		delta := (now - now%sec) - (cs.Ts[0] - cs.Ts[0]%sec)
+		for i := range cs.Ts {
+			cs.Ts[i] += delta
+		}
+	}
 	for _, q := range w.Cmds {
 		c, err := UnquoteArgs(q)
 		if err != nil {
@@ -712,8 +890,10 @@ type c07Eval struct {
 	incon    string
 	taintRun bool
 	reported map[string]bool
-	hllBytes *divergence // only the stored bytes of HLL values differ (does not taint)
-	hllMix   *divergence // HLL write-cache flush timing met a KV-level command (taints the log)
+	tooLate  bool            // live-clock log: R0 did not finish before the expiry instant (retry with a fresh log)
+	lateSkip map[string]bool // live-clock log: replicas excluded from comparison because of their real execution time
+	hllBytes *divergence     // only the stored bytes of HLL values differ (does not taint)
+	hllMix   *divergence     // HLL write-cache flush timing met a KV-level command (taints the log)
 }
 
 // note files a divergence by class; it returns true if the evaluation of this
@@ -775,6 +955,19 @@ func evalPhase1(scratch string, r *rand.Rand, cs *c07Case, fixedSpecs []repSpec)
 		ev.incon = "R0: " + r0.Err
 		return ev
 	}
+	ev.lateSkip = map[string]bool{}
+	// live-clock logs: replicas of phase 1 are only compared with each other if
+	// they applied the whole log before the first expiry instant on the real
+	// clock (minus a margin); then every wall-clock based decision agrees among
+	// them and a divergence cannot be blamed on the clock
+	liveDeadline := int64(0)
+	if cs.Live {
+		liveDeadline = cs.liveExpiry() - int64(100*time.Millisecond)
+		if r0.ApplyEnd > liveDeadline {
+			ev.tooLate = true
+			return ev
+		}
+	}
 	upto := n
 	if r0.PanicAt >= 0 {
 		upto = r0.PanicAt
@@ -806,11 +999,14 @@ func evalPhase1(scratch string, r *rand.Rand, cs *c07Case, fixedSpecs []repSpec)
 			ev.incon = sp.Name + ": " + res.Err
 			return ev
 		}
+		if cs.Live && res.ApplyEnd > liveDeadline {
+			ev.lateSkip[sp.Name] = true
+		}
 	}
 	local := cs.Policy == "local_deletion"
 	for _, sp := range ev.specs[1:] {
 		res := ev.results[sp.Name]
-		if res == nil {
+		if res == nil || ev.lateSkip[sp.Name] {
 			continue
 		}
 		// raw dumps are compared within an engine type (R0 is the mem reference,
@@ -818,7 +1014,7 @@ func evalPhase1(scratch string, r *rand.Rand, cs *c07Case, fixedSpecs []repSpec)
 		if d := compareTo(cs, "R0", &r0, sp.Name, res, !local && sp.Engine == "mem", n); d != nil && ev.note(d) {
 			return ev
 		}
-		if sp.Engine == "pebble" && sp.Name != "R2" && !local {
+		if sp.Engine == "pebble" && sp.Name != "R2" && !local && !ev.lateSkip["R2"] {
 			if d := compareTo(cs, "R2", ev.results["R2"], sp.Name, res, true, n); d != nil && ev.note(d) {
 				return ev
 			}
@@ -851,6 +1047,10 @@ func evalTaint(scratch string, ev *c07Eval, tspecs []repSpec) {
 			ev.incon = sp.Name + ": " + res.Err
 			return
 		}
+		if cs.Live && res.ApplyEnd > cs.liveExpiry()-int64(100*time.Millisecond) {
+			ev.lateSkip[sp.Name] = true
+			continue
+		}
 		d := compareTo(cs, "R0", r0, sp.Name, &res, !local && sp.Engine == "mem", n)
 		if d == nil {
 			continue
@@ -882,6 +1082,14 @@ func divSig(ev *c07Eval, d *divergence) string {
 	}
 	if d.B == "R4" || d.B == "R5" {
 		sig = "wallclock-" + sig
+		if ev.cs.Live {
+			// live-clock log: the twin applied the log before, this replica after the
+			// expiry instant on the real clock; everything else is equal
+			sig = "wallclock-expiry-in-apply/state"
+			if d.Kind == "reply" {
+				sig = "wallclock-expiry-in-apply/" + ev.cs.Cmds[maxInt(d.Index, 0)].Cmd.Name()
+			}
+		}
 	}
 	return sig
 }
@@ -902,11 +1110,18 @@ func evalPhase2(scratch string, ev *c07Eval) {
 		default:
 			continue
 		}
+		if ev.lateSkip[twin] {
+			continue
+		}
 		res := runReplica(scratch, cs, sp)
 		ev.results[sp.Name] = &res
 		if res.Err != "" {
 			ev.incon = sp.Name + ": " + res.Err
 			return
+		}
+		if cs.Live && res.ApplyStart < cs.liveExpiry() {
+			ev.lateSkip[sp.Name] = true // cannot happen after the sleep; be safe
+			continue
 		}
 		if d := compareTo(cs, twin, ev.results[twin], sp.Name, &res, !local, n); d != nil && ev.note(d) {
 			return
@@ -1107,12 +1322,15 @@ func runC07(c *vc.Ctx) error {
 	QuietLogs(c.Scratch)
 	c.Ev.Rule = "case = random log of ~60 single-command entries from the E3 generator (all write families, tiny adversarial key/member/int pools, " +
 		"adversarially close log timestamps days away from real time) executed on replicas R0 (mem, 1 entry per apply batch), R1 (mem, maximal batches), " +
-		"R2 (pebble, random partition), R3 (checkpoint+restart+replay with isReplaying, or clean follower replay without waiters), R4/R5 (R0/R2 re-executed >=1.1 s later); " +
+		"R2 (pebble, random partition), R3 (checkpoint+restart+replay with isReplaying, or clean follower replay without waiters), R4/R5 (R0/R2 re-executed >=2.6 s later); " +
+		"1/4 of the logs (by seed) are live-clock logs: log timestamps = real clock at execution, setup + 2 s TTLs on every type in log second S, ~35 generator commands on those keys still in second S (before the expiry by log time), ~25 in second S+3 (after it), " +
+		"phase-1 replicas must finish before the expiry instant on the real clock (else excluded/retimed), delayed replicas start after it; such logs are compared on replies and engine content (also mem vs pebble), not on wall-clock filtered reads; " +
 		"replies per request id, logical dumps (all), raw dumps (within engine type; not under local_deletion) must be equal. " +
 		"non-trivial = R2's partition has an apply batch with >=2 batchable commands AND >=1 command failed at apply AND >=1 TTL-bearing command was applied; " +
 		"distinct by hash(commands, timestamp deltas, all partitions, restart cut points)"
 	c.Ev.Assume("engines mem and pebble only (the rocksdb fork is not available); compaction-filter based lazy expiry cleaning exists only on rocksdb")
 	c.Ev.Assume("one in-process clock: wall-clock offsets between replicas are approximated by executing >=1.1 s later with log timestamps hours..400 days away from real time")
+	c.Ev.Assume("live-clock logs: every command is at least 1 s (by log time) away from every expire time (TTL granularity is seconds); wait_compact only; no PFADD; half of them without the commands of knownWallclockCmds (hclear)")
 	c.Ev.Assume("local_deletion: logical dumps only, background checker parked (300 s period, runs are shorter)")
 	c.Ev.Assume("logs contain only commands that pass the proposer-side syntactic validation; SETRANGE with a negative offset (panics the apply loop on every replica, C11) and MSET (not registered on the client side) are not generated")
 	c.Ev.Assume("apply batches are cut in front of every batchable command that fails at apply (clean case); the uncut log is evaluated separately (taint case) up to the first divergence and classified")
@@ -1209,7 +1427,19 @@ func runC07(c *vc.Ctx) error {
 			id := base + k
 			r := c.Rand(int64(id))
 			cs := genCase(r, id, logLen-10+r.Intn(21))
-			ev := evalPhase1(c.Scratch, r, cs, nil)
+			specSeed := r.Int63()
+			ev := evalPhase1(c.Scratch, rand.New(rand.NewSource(specSeed)), cs, nil)
+			for try := 0; ev.tooLate && try < 4; try++ {
+				// the machine was too slow to apply the log before its first expiry
+				// instant: same commands, fresh timestamps
+				c.Ev.Count("live_clock_logs_retimed_(too_slow)", 1)
+				cs.retime(time.Now().UnixNano())
+				ev = evalPhase1(c.Scratch, rand.New(rand.NewSource(specSeed)), cs, nil)
+			}
+			if ev.tooLate {
+				c.Ev.Count("live_clock_logs_skipped_(too_slow)", 1)
+				return
+			}
 			evs[k] = ev
 			if ev.incon != "" {
 				c.Inconclusive(fmt.Sprintf("log %d: %s", id, ev.incon))
@@ -1221,6 +1451,16 @@ func runC07(c *vc.Ctx) error {
 			c.Ev.Count("logs_policy_"+cs.Policy, 1)
 			if cs.V2 {
 				c.Ev.Count("logs_redis_v2_encoding", 1)
+			}
+			if cs.Live {
+				c.Ev.Count("live_clock_logs", 1)
+				if cs.LiveExclKnown {
+					c.Ev.Count("live_clock_logs_without_known_wallclock_cmds", 1)
+				}
+				c.Ev.Count("live_clock_cmds_setup_with_ttl", int64(cs.LiveB))
+				c.Ev.Count("live_clock_cmds_before_expiry_by_log_time", int64(cs.LiveC-cs.LiveB))
+				c.Ev.Count("live_clock_cmds_after_expiry_by_log_time", int64(len(cs.Cmds)-cs.LiveC))
+				c.Ev.Count("live_clock_phase1_replicas_excluded_(applied_too_late)", int64(len(ev.lateSkip)))
 			}
 			fam := map[string]int64{}
 			for i, gc := range cs.Cmds {
@@ -1261,7 +1501,7 @@ func runC07(c *vc.Ctx) error {
 			report(ev, true)
 		})
 		// phase 2: >= 1.1 s later in real time
-		time.Sleep(1150 * time.Millisecond)
+		time.Sleep(liveSleep)
 		c.ParallelFor(m, func(k int) {
 			ev := evs[k]
 			if ev == nil || ev.incon != "" {
@@ -1387,7 +1627,7 @@ func replayC07(c *vc.Ctx) error {
 		evalTaint(c.Scratch, ev, tspecs)
 	}
 	if !ev.tainted() && ev.incon == "" {
-		time.Sleep(1150 * time.Millisecond)
+		time.Sleep(liveSleep)
 		evalPhase2(c.Scratch, ev)
 	}
 	if ev.incon != "" {
